@@ -329,6 +329,8 @@ pub enum Variant {
     /// entries after the null that ends the root's children, still inside the unit: a leaf, then
     /// an entry with one child
     Trailing,
+    /// the unit ends inside the root entry: after its abbreviation code, before its attribute
+    RootCut,
 }
 
 pub fn tree_abbrevs() -> Vec<u8> {
@@ -380,6 +382,11 @@ pub fn tree_unit(parent: &[usize], v: Variant) -> (Vec<u8>, Vec<usize>) {
     let mut d = Enc::new(false);
     let mut offs = vec![0; n];
     rec(0, &kids, v, hs, &mut d, &mut offs);
+    if v == Variant::RootCut {
+        // abbreviation code 1 (one data1 attribute, children) and nothing else
+        d = Enc::new(false);
+        d.uleb(1);
+    }
     if v == Variant::Trailing {
         if kids[0].is_empty() {
             // a root without children flag has no terminator of its own
@@ -522,6 +529,9 @@ fn tree_configs(max_nodes: usize) -> Vec<(Vec<usize>, Variant)> {
         for t in trees(n) {
             v.push((t.clone(), Variant::Plain));
             v.push((t.clone(), Variant::EmptyParents));
+            if n == 1 {
+                v.push((t.clone(), Variant::RootCut));
+            }
             if n >= 2 {
                 v.push((t.clone(), Variant::Sibling));
                 v.push((t.clone(), Variant::SubRoot));
@@ -605,6 +615,7 @@ fn tree_case(ctx: &mut Ctx, cfg: &(Vec<usize>, Variant), prefix: &[usize], rest:
         Variant::SubRoot => "rooted-at-child-offset",
         Variant::ErrAt(_) => "invalid-code-node",
         Variant::Trailing => "entries-after-root-terminator",
+        Variant::RootCut => "unit-ends-inside-root-entry",
     }));
 }
 
@@ -655,7 +666,7 @@ pub fn subs(_cli_tier: Tier) -> Vec<Sub> {
         &format!("entries-tree-reroot-n{}-len{}", nodes, len),
         ncfg * 4u64.pow(pre),
         &format!(
-            "every sequence of exactly {} actions (shorter ones are prefixes) over {{root(), children().next(), next sibling, abandon}} after an initial root(), on every ordered tree with <= {} nodes x {{plain, leaves declared with children, DW_AT_sibling on inner nodes, tree rooted at the first child's offset, invalid abbreviation code at node k}} ({} configurations); each traversal that follows a root() is compared with the same traversal on a freshly constructed EntriesTree",
+            "every sequence of exactly {} actions (shorter ones are prefixes) over {{root(), children().next(), next sibling, abandon}} after an initial root(), on every ordered tree with <= {} nodes x {{plain, leaves declared with children, DW_AT_sibling on inner nodes, tree rooted at the first child's offset, invalid abbreviation code at node k, unit ending inside the root entry}} ({} configurations); each traversal that follows a root() is compared with the same traversal on a freshly constructed EntriesTree",
             len, nodes, ncfg
         ),
         move |ctx, i| {
